@@ -557,25 +557,23 @@ void mc_jobs(Tier t, std::vector<std::string> &jobs)
 {
 	bool q = t == Quick;
 	if (getenv("C18_ONLY_JOB")) { jobs.push_back(getenv("C18_ONLY_JOB")); return; }   // development aid: time a single job
-	// big jobs first
-	for (int rng = 0; rng < 2; ++rng) seq_jobs(jobs, rng, 6, q ? 7 : 9);
-	for (int rng = 0; rng < 2; ++rng) seq_jobs(jobs, rng, 8, q ? 6 : 7);
-	seq_jobs(jobs, 2, 6, q ? 9 : 12);     // 3 letters
-	seq_jobs(jobs, 2, 8, q ? 6 : 8);      // 5 letters
-	seq_jobs(jobs, 3, 6, q ? 9 : 12);     // NULL range, 2 letters
-	seq_jobs(jobs, 4, 6, q ? 8 : 11);     // inverted range, 3 letters
+	// big jobs first: the run shapes, then sequences by falling length
 	for (int rng = 0; rng < NRNG; ++rng) {
 		const Rng &g = RNG[rng];
 		int fills[2] = {rng < 2 ? 2 : (rng == 2 ? 1 : 0), 0};   // an in-range letter (NULL: any) and the lowest letter
 		for (int f = 0; f < 2; ++f) {
 			if (f && (g.null)) continue;
 			if (f && fills[0] == fills[1]) continue;
-			// quick: prefixes/suffixes of one letter, two-letter suffixes for the visible fill of the first range;
-			// thorough: prefixes and suffixes of length <= 2 for the visible fill of [0,1] and [-1,1], prefix <= 1 / suffix <= 2 elsewhere
-			bool main = rng < 2 && !f;
-			for (int k = 65531; k <= 65537; ++k) jobs.push_back(fmt("long|r=%d|fill=%d|k=%d|m=%d|s=%d", rng, fills[f], k, !q && main ? 2 : 1, q && (rng || f) ? 1 : 2));
+			// quick: prefixes/suffixes of one letter, two-letter suffixes for the visible fill of the first range; thorough: all of length <= 2
+			for (int k = 65531; k <= 65537; ++k) jobs.push_back(fmt("long|r=%d|fill=%d|k=%d|m=%d|s=%d", rng, fills[f], k, q ? 1 : 2, q && (rng || f) ? 1 : 2));
 		}
 	}
+	for (int rng = 0; rng < 2; ++rng) seq_jobs(jobs, rng, 6, q ? 7 : 9);
+	for (int rng = 0; rng < 2; ++rng) seq_jobs(jobs, rng, 8, q ? 6 : 7);
+	seq_jobs(jobs, 2, 6, q ? 9 : 12);     // 3 letters
+	seq_jobs(jobs, 2, 8, q ? 6 : 8);      // 5 letters
+	seq_jobs(jobs, 3, 6, q ? 9 : 12);     // NULL range, 2 letters
+	seq_jobs(jobs, 4, 6, q ? 8 : 11);     // inverted range, 3 letters
 	for (int s = 0; s < JOIN_SLICES; ++s) jobs.push_back(fmt("joinpairs|%d", s));
 	jobs.push_back("codes");
 }
